@@ -255,7 +255,7 @@ def main(tier, seed):
             res.violation("%s is accepted (scanner %d, exp2cxx %d): the scanner's and the generator's rules differ there "
                           "(rules_differ_outside)" % (desc, rc_s, rc_g), {"input_file": p})
     # ---- two schemas in one file
-    nmulti = 6 if tier == "quick" else 100
+    nmulti = 8 if tier == "quick" else 100
     for k in range(nmulti):
         r = rng(seed, "c17m/%d" % k)
         A = enrich(r, G.gen_schema(r, name="ma_%d" % k, n_ent=3, n_types=3))
@@ -263,7 +263,7 @@ def main(tier, seed):
         # disjoint names: prefix B's identifiers
         tb = re.sub(r"\b(e|t|en|ag|ts|it|a|d|inv|sel|f|r|c|wr|ur|xen|xi|xsel|ren_en|En|z|ren_sel|q|ren_s|ren_ag|ag_of|agag|sel_of_sel|yi)(_?\d+)\b", r"b\1\2", G.render(B))
         text = G.render(A) + "\n" + tb
-        scanned, gfiles, rc_s, rc_g, fexp, errtxt = run_pair("m%d" % k, text, fname=("m.exp" if k % 2 else "schema.exp"))
+        scanned, gfiles, rc_s, rc_g, fexp, errtxt = run_pair("m%d" % k, text, fname=["schema.exp", "m.exp", "mb_%d.exp" % k, "ma_%d.exp" % k][k % 4])
         evals += 1
         hist["multi_schema"] += 1
         what = None
